@@ -134,18 +134,33 @@ UpdateVectors == {[first |-> [h |-> Headers[2], opts |-> f], h |-> HeaderFor(s),
 \* hold ALL n of them, each with the reference record (count classes around a plausible table bound of 8)
 ManyVectors == {[first |-> None, h |-> Headers[hi], opts |-> o, many |-> n] :
                    n \in {1, 2, 8, 9, 12}, hi \in {1, 3}, o \in {<<>>, <<M1>>, <<L1, P1>>, <<P1, D1, S1>>}}
-Init == v \in IF Part = "single" THEN SingleVectors ELSE IF Part = "update" THEN UpdateVectors ELSE ManyVectors
+\* permutation pairs: the second advertisement of the same router has the same header, the same length and -- the
+\* Internet checksum being a commutative sum of 16-bit words -- the same ICMPv6 checksum as the first, because it
+\* is the first with aligned field values permuted; the reference records differ
+P1x == [P1 EXCEPT !.valid = P2.valid, !.pref = P2.pref]          \* two prefixes with exchanged lifetimes
+P2x == [P2 EXCEPT !.valid = P1.valid, !.pref = P1.pref]
+P1y == [P1 EXCEPT !.prefix = P2.prefix]                         \* ... with exchanged prefix bits
+P2y == [P2 EXCEPT !.prefix = P1.prefix]
+D2s == [D2 EXCEPT !.servers = <<D2.servers[2], D2.servers[1]>>] \* RDNSS servers swapped
+PermPairs == {<< <<P1, P2>>, <<P1x, P2x>> >>, << <<P1, P2>>, <<P1y, P2y>> >>, << <<P1, P2>>, <<P2, P1>> >>,
+              << <<L1, D2, M1>>, <<L1, D2s, M1>> >>, << <<D2, P1, P2>>, <<D2s, P2x, P1x>> >>,
+              << <<L1, P1, P2, D2>>, <<D2s, P2, L1, P1>> >>}
+PermVectors == {[first |-> [h |-> Headers[hi], opts |-> pp[1]], h |-> Headers[hi], opts |-> pp[2], macChange |-> FALSE, perm |-> TRUE] :
+                   pp \in PermPairs, hi \in {1, 2}}
+
+Init == v \in IF Part = "single" THEN SingleVectors ELSE IF Part = "update" THEN UpdateVectors \cup PermVectors ELSE ManyVectors
 Next == UNCHANGED v
 Spec == Init /\ [][Next]_v
 
 \* the reference termination measure: the walk consumes the list item by item
-WalkTerminates == Len(v.opts) <= (IF Part = "update" THEN MaxSecond ELSE 40)
+WalkTerminates == Len(v.opts) <= (IF Part = "update" /\ ~("perm" \in DOMAIN v) THEN MaxSecond ELSE 40)
 
 Vector ==
   LET firstRef == IF v.first = None THEN None
                   ELSE [ref |-> RefOf(v.first.h, v.first.opts), mayDrop |-> MayDrop(v.first.opts)]
   IN [first |-> v.first, h |-> v.h, opts |-> v.opts, macChange |-> ("macChange" \in DOMAIN v /\ v.macChange),
       many |-> IF "many" \in DOMAIN v THEN v.many ELSE 0,
+      perm |-> ("perm" \in DOMAIN v /\ v.perm),
       ref |-> RefOf(v.h, v.opts), mayDrop |-> MayDrop(v.opts), firstRef |-> firstRef]
 Export == PrintT(ToJson(Vector))
 =============================================================================
